@@ -8,7 +8,7 @@ the model (correspondence) is agreement between the entry points.  Known finding
 from engines.arena_prop import run_arena_property
 
 def run(ctx):
-    return run_arena_property(ctx, ["BumpProof.Props.C17"],
+    return run_arena_property(ctx, ["BumpProof.Props.C17", "BumpProof.Props.C17Family"],
         runs_quick=[("entry", 200, 100)],
         runs_thorough=[("entry", 8000, 200), ("general", 2000, 200)],
         fields=(0, 2, 3),
